@@ -75,6 +75,8 @@ structure St where
   iupx : Bool
   iupy : Bool
   composite : Bool
+  /-- the control value program (`prep`) is running (`Program::ControlValue` / `tt_coderange_cvt`) -/
+  inPrep : Bool
   /-- 16.16 scale (`RetainedGraphicsState::scale`, `exc->metrics.x_scale == y_scale`) and ppem -/
   scale : Int
   ppem : Int
